@@ -30,6 +30,8 @@ PROPS = {
     'C10': dict(lean_quick=['Props.C10Fin'], prefixes=['p8e0::{', 'p16e1::{', 'p32e2::{', 'pxe1::{', 'pxe2::{']),
     'C17': dict(lean_quick=['Props.C17Fin'], prefixes=['p8e0', 'p16e1', 'p32e2', 'quire']),
     'C11': dict(lean_quick=['Props.C11Fin'], prefixes=['p16e1::math', 'p8e0::math']),
+    'C18': dict(lean_quick=[], prefixes=['polynom']),
+    'C19': dict(lean_quick=['Props.C19'], prefixes=['p8e0::{impl#15}', 'p16e1::{impl#15}', 'p32e2::{impl#15}'], assumptions=['rand 0.8: gen_range(lo..hi) returns a value in [lo, hi)']),
     'C04': dict(lean_quick=['Props.C04'], prefixes=['quire8', 'quire16', 'quire32']),
     'C12': dict(lean_quick=['Props.C12'], prefixes=['quire8', 'quire16', 'quire32']),
 }
@@ -122,6 +124,48 @@ def extra_streams(pid, tier, rng, scale):
                         trip = [toks[i:i + 3] for i in range(0, len(toks), 3)]
                         rng.shuffle(trip)
                         lines.append(qt + ' hist ' + ' '.join(' '.join(t) for t in trip))
+    if pid in ('C18', 'C16'):
+        from .gen_inputs import anyp, structured_posit
+        per = (1500 if pid == 'C18' else 200) * scale * big
+        degs = [str(d) for d in range(1, 19)] + ['3a', '4a']
+        for ty, n in (('p8', 8), ('p16', 16), ('p32', 32)):
+            nar = 1 << (n - 1)
+            for d in degs:
+                k = {'3a': 4, '4a': 5}.get(d, (int(d) if d.isdigit() else 0) + 1)
+                for i in range(per):
+                    mode = rng.randint(0, 5)
+                    def P():
+                        if mode == 0: return rng.getrandbits(n)
+                        if mode == 1: return anyp(n, rng)
+                        # moderate magnitudes (around 1) so that sums neither saturate nor vanish: cancellation matters
+                        v = (1 << (n - 2)) + rng.randint(-(1 << (n - 3)), (1 << (n - 3)))
+                        return (v if rng.getrandbits(1) else -v) & ((1 << n) - 1)
+                    x = P(); cs = [P() for _ in range(k)]
+                    if mode == 5 and rng.random() < 0.3: cs[rng.randrange(k)] = rng.choice((0, nar))
+                    lines.append('%s poly %s %x %s' % (ty, d, x, ' '.join('%x' % c for c in cs)))
+        if pid == 'C18':
+            for x in range(256):      # P8E0 poly1/poly2: every x with a few coefficient sets
+                for cs in ((0x40, 0x40), (0x30, 0xd0), (0x7f, 0x01), (0x20, 0x40, 0xc0)):
+                    lines.append('p8 poly %d %x %s' % (len(cs) - 1, x, ' '.join('%x' % c for c in cs)))
+    if pid in ('C19', 'C16'):
+        per = (60000 if pid == 'C19' else 3000) * scale * big
+        for ty in ('p8', 'p16', 'p32'):
+            for _ in range(per):
+                lines.append('%s sample_seed %x' % (ty, rng.getrandbits(64)))
+        # replayed raw generator outputs: edge streams and structured words (rand maps them to draws by widening multiply)
+        raws = [0, 0xffffffff, 0x80000000, 0x7fffffff, 1, 0xfffffffe, 0xaaaaaaaa, 0x55555555, 0xffff0000, 0x0000ffff]
+        for ty in ('p8', 'p16', 'p32'):
+            for a_ in raws:
+                for b_ in raws: lines.append('%s sample_raw %x %x %x' % (ty, a_, b_, (a_ ^ b_) | 1))
+            for _ in range(per // 4):
+                lines.append('%s sample_raw %x %x %x' % (ty, rng.getrandbits(32), rng.getrandbits(32), rng.getrandbits(32)))
+            for k in range(0, 1 << 32, 1 << 20):      # sweep the top bits of the first word: every region of the draw range
+                lines.append('%s sample_raw %x %x %x' % (ty, k | rng.getrandbits(20), rng.getrandbits(32), rng.getrandbits(32)))
+        # the private helper of P16E1 sampling on EVERY input of its domain (through the verification hook)
+        if pid == 'C19':
+            for u in range(1 << 18): lines.append('p16 sub_one %x' % u)
+        else:
+            for _ in range(per): lines.append('p16 sub_one %x' % rng.randrange(1 << 18))
     if pid == 'C12':
         # posit -> quire -> posit round trip and the state operations on single-posit states
         for qt, n in QT.items():
